@@ -19,7 +19,7 @@ type zzH2Frame struct {
 }
 
 // zzH2Stream: what a client writes on a fresh connection - preface, SETTINGS,
-// a request whose header block is split over HEADERS + CONTINUATION, a DATA
+// a request whose header block is split over HEADERS + two CONTINUATION frames, a DATA
 // frame with symbolic payload, a second request in one HEADERS frame, a
 // WINDOW_UPDATE and a PING. Built with the real frame writer and HPACK encoder.
 func zzH2Stream() []byte {
@@ -41,9 +41,10 @@ func zzH2Stream() []byte {
 		return append([]byte(nil), hbuf.Bytes()...)
 	}
 	b1 := block("/one", true)
-	half := len(b1) / 2
-	fw.WriteHeaders(HeadersFrameParam{StreamID: 1, BlockFragment: b1[:half], EndStream: false, EndHeaders: false})
-	fw.WriteContinuation(1, true, b1[half:])
+	third := len(b1) / 3
+	fw.WriteHeaders(HeadersFrameParam{StreamID: 1, BlockFragment: b1[:third], EndStream: false, EndHeaders: false})
+	fw.WriteContinuation(1, false, b1[third:2*third])
+	fw.WriteContinuation(1, true, b1[2*third:])
 	fw.WriteData(1, true, verif.Bytes("payload", 3))
 	fw.WriteHeaders(HeadersFrameParam{StreamID: 3, BlockFragment: block("/two", false), EndStream: true, EndHeaders: true})
 	fw.WriteWindowUpdate(0, 7)
